@@ -63,7 +63,17 @@ fn generate(rng: &mut Rng) -> C17Sc {
         2 => ms(rng.range(0, 12_000)),
         _ => ms(rng.range(0, 10) * 500 + 250),
     };
+    // a back-end adapter with a bug: the task of one connection panics while the others are in flight
+    let crash = n >= 2 && rng.chance(1, 5);
+    if crash {
+        let k = rng.usize_below(clients.len());
+        clients[k].spec.name = "Crash".into();
+        if clients[k].spec.intent == 1 {
+            clients[k].spec.intent = 2;
+        }
+    }
     let services = Services {
+        filter: Script::always(Some(*rng.pick(&[0u64, ms(300)])), if crash { crate::services::FiltRes::PanicIfUser { name: "Crash".into() } } else { crate::services::FiltRes::Identity }),
         auth: Script::always(Some(*rng.pick(&[0u64, 0, secs(1)])), AuthRes::Claim),
         discovery: Script::always(Some(*rng.pick(&[0u64, secs(1), secs(5), secs(17)])), DiscRes::Targets(vec![TargetSpec { id: "t0".into(), addr: "10.9.8.7:25565".into(), meta: Default::default() }])),
         ..Default::default()
@@ -71,7 +81,9 @@ fn generate(rng: &mut Rng) -> C17Sc {
     C17Sc {
         net: NetScenario {
             seed: rng.next_u64(),
-            cfg: NetCfg { secret: None, expiry: None, max_frame: None, timeout_ns: secs(timeout_s), proxy, limiter: None, use_start: false },
+            // a third of the runs go through the application entry point: passage::start(config), stopped
+            // by the (simulated) interrupt signal it listens for
+            cfg: NetCfg { secret: None, expiry: None, max_frame: None, timeout_ns: secs(timeout_s), proxy, limiter: None, use_start: !crash && rng.chance(1, 3) },
             wall: Default::default(),
             services,
             clients,
@@ -115,6 +127,11 @@ pub fn check(sc: &C17Sc, out: &NetOutcome, free: &NetOutcome, rep: &mut RunRepor
         };
         let after_stop = conn_seq > stop_seq;
         let served = c.rx_total > 0;
+        // through the application entry point the interrupt reaches the listener by way of a task of its
+        // own: a connection that arrives at the very instant of the interrupt is a tie, either fate is fine
+        if sc.net.cfg.use_start && sc.net.clients[i].connect_at_ns == stop {
+            continue;
+        }
         if after_stop {
             if served {
                 rep.violate("nothing_served_after_stop", format!("connection {i} arrived after the stop request (event #{conn_seq} > #{stop_seq}, t = {} ns) but received {} bytes: {:?}", sc.net.clients[i].connect_at_ns, c.rx_total, c.view.kinds()));
@@ -201,7 +218,7 @@ impl Check for C17 {
         generate(rng)
     }
     fn execute(&self, sc: &C17Sc) -> RunReport {
-        if !net_domain_ok(&sc.net) || sc.net.cfg.use_start || sc.net.stop_at_ns.is_none() || sc.net.cap_ns < sc.net.cfg.timeout_ns * if sc.net.cfg.proxy.is_some() { 3 } else { 1 } + secs(30) {
+        if !net_domain_ok(&sc.net) || sc.net.stop_at_ns.is_none() || sc.net.cap_ns < sc.net.cfg.timeout_ns * if sc.net.cfg.proxy.is_some() { 3 } else { 1 } + secs(30) {
             return RunReport::default();
         }
         if sc.net.clients.iter().any(|c| c.spec.script.is_some() || !c.spec.mutations.is_empty() || c.spec.preamble.is_some() != sc.net.cfg.proxy.is_some() || !c.wplan.is_empty() || !matches!(c.spec.intent, 1..=3)) {
@@ -223,7 +240,7 @@ impl Check for C17 {
             ..Default::default()
         };
         rep.merge_counts(&out.faults, &out.probes);
-        *rep.faults.entry("stop_signal".into()).or_insert(0) += 1;
+        *rep.faults.entry(if sc.net.cfg.use_start { "interrupt_signal_to_application".to_string() } else { "stop_signal".to_string() }).or_insert(0) += 1;
         if sc.net.clients.iter().any(|c| !c.spec.cuts.is_empty()) {
             *rep.faults.entry("proxy_header_trickles_in".into()).or_insert(0) += 1;
         }
